@@ -431,7 +431,7 @@ impl Prop for C05 {
                         let k = &keys[crate::engine::idx(e.k, keys.len())];
                         let (hash, len) = content(e.c);
                         let target = if i % 4 == 3 { neighbour } else { ns };
-                        let fe = crate::wire::forge_entry(&[1u8; 64], &[2u8; 64], target.as_bytes(), &a, k, len, hash.as_bytes(), T0 + e.t as u64)?;
+                        let fe = crate::wire::forge_entry(&[1u8; 64], &[2u8; 64], target.as_bytes(), &a, k, len, hash.as_bytes(), crate::gen::ts_of(e.t))?;
                         es(verif::store_put(&mut st.store, fe))?;
                     }
                     let contents = dump(&mut st.store, ns)?;
